@@ -3009,7 +3009,9 @@ func (e *c05Eng) entryState(fr *c05Frame) *c05State {
 				st.env[pk] = c05Exact("COLS", 0)
 			case e.isCountType(pobj.Type()):
 				st.env[pk] = c05Top()
-				st.env[pk].addLo("", 0)
+				if !c05SelectorParam(fr.fi, pobj) { // a selector (switch tag / compared with constants only) is not a count: nothing assumed (c05sign.go)
+					st.env[pk].addLo("", 0)
+				}
 			}
 		}
 	}
@@ -3586,6 +3588,9 @@ func c05InvRound(c *Ctx, e *c05Eng, goals []c05Goal, ctxSet map[*FuncInfo]bool) 
 						}
 						if e.isGeoSetter(cf, map[*FuncInfo]bool{}) {
 							continue // sizes: assumed >= 1 (see assumptions)
+						}
+						if c05SelectorParam(cf, c06ParamObj(cf, i)) {
+							continue // the callee only selects on the value and assumes nothing about its sign (c05sign.go)
 						}
 						s2 := st.clone()
 						l := e.linOf(fr, s2, x.Args[i])
